@@ -9,6 +9,10 @@ tie     : correspondence, five streams of harness/c10.cpp against `drv_c10`:
             wkt-write  GEOSWKTWriter_write_r on generated trees under every configuration     ==  model writer
             wkt-read   GEOSWKTReader_read_r on GEOS's own output, variants, corpus, mutations   ==  model reader
             wkt-rt     read(write(g)) through GEOS == through the model == specification `project` / `dimOK`
+translator: translate/specs/wkt_io.py regenerates the configuration / ordinate-flag / number-layout decisions of WKTWriter, WKTReader,
+          OrdinateSet.h and PrecisionModel::getMaximumSignificantDigits into Generated/WktIO.lean on every run; Props/C10Gen.lean
+          proves them equal to the model (setters, decimalPlaces, capOrds, ordText, coordToks, writeTrimmedNumber's branch
+          selection = notationOf / adjPrecision, emptyOrOpener, getCoord, matchType's flags, the mixed-dimension check)
             geojson    GeoJSON read(write(g)) through GEOS == documented projection (correspondence only)
 oracle  : independent of Lean, `number_property` re-checks the property's own sentence on every `fmt` line with
           exact rational arithmetic (length < 28, alphabet, |reread - x| <= half unit of last digit + ulp, exactness
@@ -238,7 +242,7 @@ def run(ctx):
         "hexadecimal floats / nan(...) accepted by strtod are not modelled in the reader (never written)",
         "circular-arc envelope computation at construction time throws for some non-finite ordinates; not modelled, such generated cases are skipped by the harness (STAT skipped_nonfinite_arc_envelope)",
     ])
-    proved = ctx.prove(PROPS, extra_targets=(DRV,))
+    proved = ctx.prove_generated([("wkt_io", "GeosModel/Generated/WktIO.lean", "GeosModel.Props.C10Gen")], PROPS, extra_targets=(DRV,))
     ok, out = verif.build_geos("rel")
     if not ok:
         ctx.violation("GEOS does not build with -DGEOS_VERIF", {"kind": "build-failure", "log": out[-3000:]}, nofail=True)
